@@ -137,7 +137,7 @@ def _verify_alternative(registry, repo, contract, mod, fnode, cnode, names, comb
     s.set("timeout", 4000)
     for h in st.hyps():
         s.add(h)
-    r = s.check()
+    r = V.guarded_check(s, 4000)
     if r == z3.unknown:
         # quantified lemmas make satisfiability hard to show: check the precondition without the entry lemmas
         s2 = z3.Tactic("default").solver()
@@ -145,7 +145,7 @@ def _verify_alternative(registry, repo, contract, mod, fnode, cnode, names, comb
         n_lem = len(contract.entry_lemmas)
         for h in (st.hyps()[:-n_lem] if n_lem else st.hyps()):
             s2.add(h)
-        r2 = s2.check()
+        r2 = V.guarded_check(s2, 4000)
         if r2 == z3.sat:
             r = "sat-without-lemmas"
     rep.vacuity["requires_sat"] = str(r) if rep.vacuity["requires_sat"] in (None, "sat") else rep.vacuity["requires_sat"]
@@ -211,7 +211,7 @@ def _verify_alternative(registry, repo, contract, mod, fnode, cnode, names, comb
         can.set("timeout", 1500)
         for h in o.st.hyps():
             can.add(h)
-        r = can.check()
+        r = V.guarded_check(can, 1500)
         rep.vacuity.setdefault("canaries", []).append(str(r))
         if r == z3.unsat:
             dead.append(f"{contract.qualname}{tag}#p{k}: {' > '.join(o.st.trace[-4:])}")
